@@ -84,6 +84,15 @@ func c15Scenarios(tier string) (rulesSc, lockSc []CScenario) {
 		lockSc = append(lockSc, cs)
 		rulesSc = append(rulesSc, cs)
 	}
+	// A key named twice far apart in a longer batch (whatever the duplicate check does for the first entries and for the
+	// later ones, it must see both mentions).
+	for _, pos := range [][2]int{{3, 18}, {0, 64}, {10, 129}, {5, 257}} {
+		keys := keyRange(0, pos[1]+2)
+		keys[pos[1]] = pos[0]
+		cs := CScenario{Name: fmt.Sprintf("refused-early atts[%d keys, k%d again at position %d];att(0)||atts[1 0]", len(keys), pos[0], pos[1]), Bound: 1,
+			Threads: [][]CReq{{attsN(keys, 0, 1), att1(0, 1, 2)}, {attsN([]int{1, 0}, 2, 3)}}}
+		lockSc = append(lockSc, cs)
+	}
 	// Callers that give up: a request whose context is already cancelled, or is cancelled at any moment while it waits or
 	// runs, must neither block nor leave anything locked.
 	for _, b := range []CReq{att1(0, 0, 1), attsN([]int{0, 1}, 0, 1), attsN([]int{1, 0}, 0, 1), prop1(0, 5), signsN(0, 1)} {
